@@ -522,3 +522,123 @@ def run_toplevel_route(ci, step, extra):
     except (STIXError, ValueError, TypeError):
         again = False
     return r.has_custom == extra and again == (not extra) and ("rank_a" in r) == (h_C17.EXT_A in combo)
+
+
+# ---- custom content carried by a property that a REGISTERED toplevel-property-extension defines, and references given as object instances
+EXT_R = "extension-definition--c04c04c0-f010-4473-83ec-1edf84858f4c"
+
+
+def _fixture_r():
+    from stix2 import properties as SP
+    if stix2.registry.class_for_type(EXT_R, "2.1", "extensions") is None:
+        @stix2.v21.CustomExtension(EXT_R, [("peer_ref", SP.ReferenceProperty(valid_types=["SDO"], spec_version="2.1")),
+                                           ("peer_refs", SP.ListProperty(SP.ReferenceProperty(valid_types=["SDO", "SCO"], spec_version="2.1"))),
+                                           ("sums", SP.HashesProperty(["MD5", "SHA-256"], spec_version="2.1")),
+                                           ("origin", SP.EmbeddedObjectProperty(stix2.v21.ExternalReference)),
+                                           ("origins", SP.ListProperty(stix2.v21.ExternalReference)), ("rank", SP.IntegerProperty())])
+        class ExtR:
+            extension_type = "toplevel-property-extension"
+    for ver, mod in (("2.1", stix2.v21), ("2.0", stix2.v20)):
+        if stix2.registry.class_for_type("x-c04-gadget", ver, "objects") is None:
+            @mod.CustomObject("x-c04-gadget", [("name", SP.StringProperty())])
+            class Gadget:
+                pass
+
+
+CARRIED = [  # (property, clean value, custom value)
+    ("peer_ref", "malware--" + UU, "x-unregistered--" + UU), ("peer_refs", ["file--" + UU], ["file--" + UU, "x-unregistered--" + UU]),
+    ("sums", {"MD5": "0" * 32}, {"MD5": "0" * 32, "x-foo": "zz"}), ("sums", {"SHA-256": "0" * 64}, {"x-foo": "zz", "SHA-256": "0" * 64}),
+    ("origin", {"source_name": "s", "external_id": "1"}, {"source_name": "s", "external_id": "1", "x_foo": 1}),
+    ("origins", [{"source_name": "s", "external_id": "1"}], [{"source_name": "s", "external_id": "1"}, {"source_name": "t", "external_id": "2", "x_foo": ""}]),
+    ("peer_ref", "identity--" + UU, "x-c04-gadget--" + UU), ("rank", 0, None),
+]
+
+
+def extension_carried(ci: int, custom: bool, host: int, also: bool) -> bool:
+    """
+    pre: 0 <= ci < len(CARRIED) and 0 <= host <= 2
+    post: _
+    """
+    ci, custom, host, also = pick(ci, len(CARRIED)), pickb(custom), pick(host, 3), pickb(also)
+    with Native():
+        ok = run_carried_case(ci, custom, host, also)
+    V.reached()
+    return ok
+
+
+def run_carried_case(ci, custom, host, also):
+    _fixture_r()
+    prop, clean, bad = CARRIED[ci]
+    if custom and bad is None:
+        return True
+    base = [dict(BASES[0][1]), dict(BASES[1][1]), dict(BASES[4][1])][host]          # malware, file (SCO), relationship
+    doc = dict(base, extensions=dict(base.get("extensions", {}), **{EXT_R: {"extension_type": "toplevel-property-extension"}}))
+    doc[prop] = copy.deepcopy(bad if custom else clean)
+    if also:
+        doc["rank"] = 7                                        # a second, clean extension property next to it
+    try:
+        stix2.parse(doc, allow_custom=False, version="2.1")
+        strict = True
+    except (STIXError, ValueError, TypeError):
+        strict = False
+    if strict != (not custom):
+        return False
+    try:
+        o = stix2.parse(doc, allow_custom=True, version="2.1")
+    except (STIXError, ValueError, TypeError):
+        return False
+    try:
+        stix2.parse(json.loads(o.serialize()), allow_custom=False, version="2.1")
+        again = True
+    except (STIXError, ValueError, TypeError):
+        again = False
+    b = stix2.v21.Bundle(o, allow_custom=True)
+    return o.has_custom == custom and again == (not custom) and b.has_custom == custom
+
+
+REF_SITES = [  # (version, how the referring object is built from a referred-to OBJECT)
+    ("2.1", lambda x, **k: stix2.v21.Relationship(x, "uses", "identity--" + UU, **k)), ("2.1", lambda x, **k: stix2.v21.Relationship("identity--" + UU, "uses", x, **k)),
+    ("2.1", lambda x, **k: stix2.v21.Sighting(sighting_of_ref=x, **k)), ("2.1", lambda x, **k: stix2.v21.Report(name="r", published="2020-01-01T00:00:00Z", object_refs=[x], **k)),
+    ("2.1", lambda x, **k: stix2.v21.Note(content="c", object_refs=["identity--" + UU, x], **k)),
+    ("2.0", lambda x, **k: stix2.v20.Relationship(x, "uses", "identity--" + UU, **k)), ("2.0", lambda x, **k: stix2.v20.Sighting(sighting_of_ref=x, **k)),
+    ("2.0", lambda x, **k: stix2.v20.Report(name="r", published="2020-01-01T00:00:00Z", labels=["threat-report"], object_refs=[x], **k)),
+    ("2.1", lambda x, **k: stix2.v21.Relationship("identity--" + UU, "uses", "identity--" + UU.replace("3", "4"), **k).new_version(target_ref=x, **k)),
+]
+
+
+def references_by_instance(si: int, custom: bool) -> bool:
+    """
+    pre: 0 <= si < len(REF_SITES)
+    post: _
+    """
+    si, custom = pick(si, len(REF_SITES)), pickb(custom)
+    with Native():
+        ok = run_ref_instance_case(si, custom)
+    V.reached()
+    return ok
+
+
+def run_ref_instance_case(si, custom):
+    """a reference may be given as the object referred to: it counts exactly as that object's id string would (a registered custom type is custom)"""
+    _fixture_r()
+    ver, build = REF_SITES[si]
+    mod = stix2.v21 if ver == "2.1" else stix2.v20
+    target = stix2.registry.class_for_type("x-c04-gadget", ver, "objects")(name="g") if custom else mod.Malware(name="m", **({"is_family": False} if ver == "2.1" else {"labels": ["x"]}))
+    outcomes = []
+    for given in (target, target.id):
+        try:
+            build(given)
+            strict = True
+        except (STIXError, ValueError, TypeError):
+            strict = False
+        try:
+            o = build(given, allow_custom=True)
+        except (STIXError, ValueError, TypeError):
+            return False
+        try:
+            stix2.parse(json.loads(o.serialize()), allow_custom=False, version=ver)
+            again = True
+        except (STIXError, ValueError, TypeError):
+            again = False
+        outcomes.append((strict, o.has_custom, again))
+    return outcomes[0] == outcomes[1] == (not custom, custom, not custom)
